@@ -26,7 +26,7 @@ theorem InvC.pres_g2 {cfg : Cfg} {s s' : State} {l : Label} (hB : InvB s) (hI : 
     kind_startupCleanup_iff, kind_coreWatch_iff] at *)
   all_goals (try subst_vars)
   all_goals (try dsimp only)
-  all_goals (grind [upd, Root.kind, TS.active, TS.live, TS.ended, TS.isStopping, failTS, cancelSubs,
+  all_goals (grind [upd, Root.kind, TS.active, TS.live, TS.ended, TS.isStopping, failTS, cancelSubs, cancelPingers,
     cancelRoots, cancelRootsV, Pend.ts, scPastWait, scEarly])
 
 end Kopf.C20
